@@ -80,7 +80,9 @@ func (g *c38Gen) build(t reflect.Type, path string) reflect.Value {
 		alts := []sdk.Address{sdk.Address(bytes.Repeat([]byte{0xA1}, 20)), sdk.Address(bytes.Repeat([]byte{0x00}, 20)), sdk.Address(bytes.Repeat([]byte{0xFF}, 20)), nil}
 		return reflect.ValueOf(alts[g.pick(path, len(alts))])
 	case tBigInt:
-		alts := []sdk.BigInt{sdk.NewInt(1000000), sdk.ZeroInt(), sdk.OneInt(), sdk.NewInt(math.MaxInt64), bigFrom("1000000000000000000000000000000")}
+		max255 := new(big.Int).Sub(new(big.Int).Lsh(big.NewInt(1), 255), big.NewInt(1)) // the documented maximum 2^255-1
+		alts := []sdk.BigInt{sdk.NewInt(1000000), sdk.ZeroInt(), sdk.OneInt(), sdk.NewInt(math.MaxInt64), bigFrom("1000000000000000000000000000000"),
+			sdk.NewIntFromBigInt(max255), sdk.NewIntFromBigInt(new(big.Int).Neg(max255)), sdk.NewInt(-1)}
 		return reflect.ValueOf(alts[g.pick(path, len(alts))])
 	case tBigDec:
 		alts := []sdk.BigDec{sdk.NewDec(1), sdk.ZeroDec(), sdk.NewDecWithPrec(1, 18), sdk.NewDecWithPrec(123456789, 4), sdk.NewDec(math.MaxInt64)}
